@@ -31,15 +31,18 @@ def is_client_value(t):
 
 def is_app_id(t):
     """the app id of a namespace / mailbox object (plumbed by R-plumb)"""
+    if t[0] == "idof":
+        return t[2] == "_app_id" and t[1][0] == "obj" and \
+            t[1][1] in ("AppNamespace", "Mailbox")
     return t[0] == "attr" and t[2] == "_app_id" and t[1][0] == "obj" and \
         t[1][1] in ("AppNamespace", "Mailbox")
 
 
-def app_of(t, state_heap=None):
-    return t[1] if is_app_id(t) else None
-
-
 def is_own_mailbox_id(t):
+    """the id of a Mailbox object (created only by the get-or-create, after
+    the mailbox row was ensured for its app)"""
+    if t[0] == "idof":
+        return t[2] == "_mailbox_id" and t[1][0] == "obj" and t[1][1] == "Mailbox"
     return t[0] == "attr" and t[2] == "_mailbox_id" and t[1][0] == "obj" and \
         t[1][1] == "Mailbox"
 
